@@ -375,6 +375,7 @@ class ImportURI(scoping.ModelLoader):
 
     def __call__(self, obj, attr, obj_ref):
         from textx.model import ObjCrossRef, get_model
+        from textx.scoping.tools import get_parser
 
         assert type(obj_ref) is ObjCrossRef, type(obj_ref)
         # cls, obj_name = obj_ref.cls, obj_ref.obj_name
@@ -391,16 +392,27 @@ class ImportURI(scoping.ModelLoader):
         if ret:
             return ret
 
+        def lookup_in(other_model):
+            try:
+                return self.scope_provider(other_model, attr, obj_ref)
+            except TextXSemanticError as e:
+                # The reference is located in `model`, not in the model
+                # searched: report the error at the reference.
+                line, col = get_parser(obj).pos_to_linecol(obj_ref.position)
+                raise TextXSemanticError(
+                    e.message, line=line, col=col, filename=model._tx_filename
+                ) from e
+
         # 2) do we have loaded models?
         for m in model_repository.local_models:
-            ret = self.scope_provider(m, attr, obj_ref)
+            ret = lookup_in(m)
             if ret:
                 return ret
 
         # 3) Use builtin models as a fallback if provided
         if model._tx_metamodel.builtin_models:
             for m in model._tx_metamodel.builtin_models:
-                ret = self.scope_provider(m, attr, obj_ref)
+                ret = lookup_in(m)
                 if ret:
                     return ret
         return None
